@@ -676,7 +676,12 @@ PROPS["C11"] = _dbg(
      "Lace.C11.iter_fresh", "Lace.C11.bp_removed_never_pauses_trace", "Lace.C11.bp_line_only_at_breakpoint_trace",
      "Lace.C11.no_bp_runs_on_trace", "Lace.C11.bp_exec_preceded_by_resume", "Lace.C11.bp_fires_every_arrival",
      "Lace.C11.break_directive_addresses", "Lace.C11.break_directive_addresses_src", "Lace.C11.parse_breaks",
-     "Lace.C11.assemble_breaks", "Lace.C11.runLoop_execs_eq_trace", "Lace.C11.nextReads_length"],
+     "Lace.C11.assemble_breaks", "Lace.C11.runLoop_execs_eq_trace", "Lace.C11.nextReads_length",
+     # `.break` tied to the abstract program (Spec.Prog.breaks; Props/C11Text.lean, Proofs/ParseBreaksRender.lean)
+     "Lace.C11.breaks_render", "Lace.C11.debugger_breakpoints_render", "Lace.C11.break_marks_next_statement",
+     "Lace.C11.break_trailing", "Lace.C11.break_occupies_no_memory", "Lace.C11.break_occupies_no_memory_render",
+     "Lace.C11.mem_breaks_iff", "Lace.C11.breaks_incr", "Lace.C11.parse_tokens_breaks",
+     "Lace.C11.parse_items_breaks"],
     "programs with loops incl. a one-instruction self-loop, .break before the first / between any two / after the last "
     "statement, doubled, together with labels × scripts of break add / remove / list at absolute, label and PC-offset "
     "locations interleaved with every resuming command; pause points are observable through the command/execution "
